@@ -184,7 +184,7 @@ PROPS["C11"] = dict(
 )
 
 PROPS["C10"] = dict(
-    units=["cache", "evict"],
+    units=["cache", "evict", "builders5"],
     title="Cache hits return the latest unexpired value of the right key; size bounded",
     level_text="Deductive proof (Verus) on the real bodies of CacheEntry::{new,is_expired}, CacheStore::{new,get,insert,len} (whole-map postconditions over the abstract view of the eviction container: a hit returns the value stored "
                "under that key iff it is not older than the TTL on the explicit clock, an expired entry is removed and misses, insert stores the value under its key stamped now and changes no other key's value) and Cache::call "
@@ -214,7 +214,7 @@ PROPS["C06"] = dict(
 )
 
 PROPS["C18"] = dict(
-    units=["healthcheck", "hcselect"],
+    units=["healthcheck", "hcselect", "builders5"],
     title="Health status flips only at its thresholds",
     level_text="Deductive proof (Verus) on the real bodies of HealthCheckedContext::{status,set_status,set_last_check,consecutive_*,record_success,record_failure} (RwLock erased: whole-state postconditions) and on the status-update "
                "block of the checker task (fragment of HealthCheckWrapper::start extracted by anchor, including the mapping of a timed-out check to Unhealthy): the published status becomes Unhealthy only on a failed or timed-out "
